@@ -24,7 +24,21 @@ def doc_class():
         a: int = 0
         b: str = ""
 
-    class Doc(S.Serializable):
+    class DocBase(S.Serializable):
+        # an earlier version of the message type: the same field names with other shapes.  Doc re-declares them; the base class is converted first, so that
+        # anything the library remembers per class about annotations is in place before the subclass is used
+        li: Dict[str, int] = None
+        di: List[int] = None
+        si: List[str] = None
+        t: List[int] = None
+        de: Set[int] = None
+
+    b0 = DocBase()
+    b0.li, b0.di, b0.si, b0.t, b0.de = {"a": 1}, [1, 2], ["x"], [3], {4}
+    DocBase.fromJson(b0.toJson())
+    DocBase.loads(b0.dumps())
+
+    class Doc(DocBase):
         i: int = 0
         f: float = 0.0
         b: bool = False
